@@ -15,7 +15,7 @@ from gens import atoms_of, base_cells, make_supercell, random_dataset, tables
 from permcorr import coq_near, fake_cutoff, random_near
 from tensors import full_basis_tensors, sum_rule_residual
 
-UNITS = ["SolverStruct", "BatchGen"]
+UNITS = ["SolverStruct", "BatchGen", "EigStruct"]
 PROPS = ["props/C03.v"]
 EXTRA = ["theories/SumRule.vo"]
 ASSUMPTIONS = ["eigen-solver selection of the unit eigenspace is C15's subject (oracle: numpy eigh); sums are checked to 1e-9 relative to the largest element"]
@@ -70,7 +70,11 @@ def check(ctx):
     ctx.rule = ("Gram correspondence: G-tables with N<=4 (orders 2,3; order 4 N<=3), no cutoff and random T-invariant cutoff relation, every n_batch dividing pattern 1..N, fast and stable variants; "
                 "oracle: low-symmetry cells, orders 2-4, cutoff none/real, sum over each index position of every expanded basis vector and of fits; both eigen paths via SYMFC_VERIF_EIG_THRESHOLD")
     cases = []
-    for name, tp in tables(4, rng):
+    from gens import abelian_table
+    # natural labelling (orbit by orbit): independent atoms are not adjacent, so per-atom batches alternate between
+    # batches with and without an independent atom
+    natural = [("2_na2_natural", abelian_table((2,), 2)), ("2_na3_natural", abelian_table((2,), 3)) if not ctx.quick else ("3_na1_natural", abelian_table((3,), 1)), ("2x2_na1_natural", abelian_table((2, 2), 1))]
+    for name, tp in natural + tables(4, rng):
         N = tp.shape[1]
         for order in (2, 3, 4):
             if order == 4 and N > 3:
@@ -79,7 +83,7 @@ def check(ctx):
             if N >= 2:
                 cases.append((name, tp, order, random_near(tp, rng, 0.6)))
     if ctx.quick:
-        cases = cases[:: 2] + cases[1:: 4]
+        cases = cases[:12] + cases[12:: 2] + cases[13:: 4]
     impl = []
     for name, tp, order, near in cases:
         fc = None if near is None else fake_cutoff(near)
